@@ -161,7 +161,7 @@ ADD_TEXT = {
  'C10': ' Continuation (Proofs/C10A.lean): arc_within_tolerance - for every circular arc and EVERY tolerance every point of every piece of Arc::append_iter is within T of the circle (before only R/T >= 13997), hence all rounded-rectangle corners and circle-segment arcs.',
  'C12': ' Continuation (Proofs/C12S.lean): the shape-image clause over R - (A*e).pts = A(e.pts) for ellipses and circles (the SVD as a statement about points), and arc_image_param: for det A != 0 and positive radii the point of A*arc at start\'+s*sweep\' is A applied to the point of arc at start+s*sweep for every real s (image traversed in the image direction).',
  'C15': ' Continuation (Kurbo/Quartic.lean, Proofs/C15Q.lean): the general path of solve_quartic (factor_quartic_inner with LDL^T candidates, noise guard, candidate selection, Newton polish, rescaling retries, depressed_cubic_dominant) is now in the model and agrees with the crate bit for bit on every quartic compared; in exact arithmetic with an exact resolvent root it returns exactly the real roots (solveQuartic_general_exact_real), the Newton loop never increases eps_t, and d_2 > 0 means no real root except a possible double root at -l_2.',
- 'C16': ' Continuation: BezPath::write_to is now a model function (Kurbo/SvgWrite.lean) compared byte for byte with the crate, round trip theorems restated for it incl. same segments for every path starting with MoveTo (Proofs/C16W.lean); the arc clause is proved over R for Arc.from_svg_arc (Proofs/C16A.lean): the arc starts at the current point, ends at the stated end point, sweep sign = sweep flag, |sweep| > pi iff large-arc (when the radii fit).',
+ 'C16': ' Continuation: BezPath::write_to is now a model function (Kurbo/SvgWrite.lean) compared byte for byte with the crate, round trip theorems restated for it incl. same segments for every path starting with MoveTo (Proofs/C16W.lean); the arc clause is proved over R for Arc.from_svg_arc (Proofs/C16A.lean): the arc starts at the current point, ends at the stated end point, sweep sign = sweep flag, |sweep| > pi iff large-arc (when the radii fit); Proofs/C16G.lean composes it with the arc outline structure and the parser step lemmas: a non-degenerate A command appends a continuous chain of CurveTos from the current point to the stated end point (the pen after the command is `to` in every case), and the text `M .. A ..` parses to exactly those elements.',
 }
 ADD_NOTE = {
  'C13': ' Continuation: a defect of the dash iterator (ClosePath emitted before the last segment of a closed sub-path inside the first dash) was found, repaired (7127469), the model re-transcribed and every theorem re-proved (three restated for the better behaviour).',
